@@ -397,7 +397,9 @@ def http_status_to_code(status: Union[http.HTTPStatus, int, bytes, str]) -> int:
         return status.value
 
     if isinstance(status, int):
-        return status
+        # NOTE: Always return a plain int, never a member of an int subclass
+        #   such as an application-defined enum.IntEnum.
+        return int(status)
 
     if isinstance(status, bytes):
         status = status.decode()
